@@ -118,3 +118,11 @@ claim('C10',
       'the right orientation; the identity shortcut is taken only for equal-shape allclose bounds. Positivity / exactness / conservation of the run-time matrices are NOT decided numerically.',
       'Trusted: recognised source forms in dsa/rules/c10.py; NumPy broadcasting semantics of (M.T / w).T and (M / w).T.',
       'DESIGN.md 4 C10')
+claim('C09',
+      'abstract interpretation of the finer-mesh selection over the finite domain of flag/ordering cases (exhaustive), normalised-AST sibling comparison, normalisation provenance',
+      'Structural necessary conditions of C09 (DESIGN 4.9): the finer-mesh selection reads only the has_rodded flags, ring counts and pin pitches and, interpreted over all 36 abstract '
+      'flag/ordering cases in both argument orders, selects the same physical assembly and edge count from both sides whenever a compared key differs, the pin-bundle assembly over an unrodded '
+      'one, more rings first and then the smaller pitch; the side and corner count-once decisions are identical modulo the direction index; the gap flow is split by area fraction. The '
+      'combinatorial facts of the run-time maps (cover once, 1-3 neighbours, symmetric adjacency, total area) are NOT decided.',
+      'Trusted: the abstract interpreter in dsa/rules/c09.py (raises an analysis error on any construct it does not model).',
+      'DESIGN.md 4 C09')
